@@ -179,3 +179,20 @@ CHECKS["C03"] = {
     "note": "Chain depth and operand sets are bounded; function pointers excluded by the property. Trusted: TLC, "
             "harness/mem_driver.cpp, vm backend, g++ 12.",
 }
+
+CHECKS["C10"] = {
+    "technique": "TLA+ Contract (Addr.RangeOpAllowed: legality of every given range in exact wide arithmetic, two-sided) "
+                 "evaluated by TLC on recorded bulk operations (whole-region diffs, red zones, guard pages); named deviation "
+                 "for the open finding D17",
+    "text": "memset, memcpy (application, tainted, straddling and other-sandbox sources), memcmp, copy_and_verify_range / "
+            "unverified_safe_pointer_because (element sizes 1,2,4,8), copy_and_verify_buffer_address, "
+            "copy_and_verify_string (terminated inside, at the last byte, unterminated), copy_memory_or_grant_access and "
+            "copy_memory_or_deny_access are run for null/first/last/interior starts and extents from 0 past the region size "
+            "up to 2^64-1, with plain and tainted size operands; every run records the outcome, the interval of region bytes "
+            "that changed, red zones of application buffers and whether the effect is exact; TLC checks that an operation "
+            "proceeds only if every range is wholly legal, touches only its destination range, and that every satisfiable "
+            "non-empty request is carried out.",
+    "note": "Exact same-sandbox backend variant (mask-based plugins may refuse more). Extent grid is sampled in the quick tier "
+            "(every 61st + boundaries), complete 0..4098 in the thorough tier. D17 (strlen overrun) is an open known "
+            "finding. Trusted: TLC, harness/bulk_driver.cpp, vm backend, g++ 12.",
+}
